@@ -39,8 +39,19 @@ unsigned long strtoul(const char *nptr, char **endptr, int base) { (void)nptr; (
 #ifndef IGN
 #define IGN 0
 #endif
-#define NT 9
-static const char *TOK[NT] = { "-a", "-b", "--al", "--", "x", "-ab", "-ba", "-c", "--zz" };
+#ifndef NT
+#define NT 9            /* how many of the tokens below the solver may choose from */
+#endif
+#define T_A 0
+#define T_B 1
+#define T_DD 2
+#define T_X 3
+#define T_AB 4
+#define T_C 5
+#define T_AL 6
+#define T_BA 7
+#define T_ZZ 8
+static const char *TOK[9] = { "-a", "-b", "--", "x", "-ab", "-c", "--al", "-ba", "--zz" };
 
 /* reference: expand the tokens into a flat sequence of "events" */
 struct ref {
@@ -59,16 +70,16 @@ static void reference(const int *t, int n, struct ref *r)
     int i = 0;
     while (i < n) {
         int k = t[i];
-        if (k == 3) { for (int j = i + 1; j < n; j++) r->tail[r->ntail++] = TOK[t[j]]; return; }      /* "--" */
-        if (k == 4) {                                                                                 /* plain token */
+        if (k == T_DD) { for (int j = i + 1; j < n; j++) r->tail[r->ntail++] = TOK[t[j]]; return; }      /* "--" */
+        if (k == T_X) {                                                                              /* plain token */
             if (!IGN) r->ok = 0;
             for (int j = i; j < n; j++) r->tail[r->ntail++] = TOK[t[j]];
             return;
         }
-        if (k == 8) { r->ok = 0; return; }                                                            /* unknown long option */
-        if (k == 7) { r->ok = 0; return; }                                                            /* -c: unknown short option (error even when ignoring unknown tokens) */
-        if (k == 1) { r->nB++; i++; continue; }                                                       /* -b */
-        if (k == 0 || k == 2) {                                                                       /* -a / --al */
+        if (k == T_ZZ) { r->ok = 0; return; }                                                            /* unknown long option */
+        if (k == T_C) { r->ok = 0; return; }                                                            /* -c: unknown short option (error even when ignoring unknown tokens) */
+        if (k == T_B) { r->nB++; i++; continue; }                                                       /* -b */
+        if (k == T_A || k == T_AL) {                                                                       /* -a / --al */
 #if NPA == 1
             if (i + 1 >= n) { r->ok = 0; return; }
             r->parA[r->nA++] = TOK[t[i + 1]]; i += 2;
@@ -77,7 +88,7 @@ static void reference(const int *t, int n, struct ref *r)
 #endif
             continue;
         }
-        /* combined shorts: -ab (k == 5) = -a [param] -b ; -ba (k == 6) = -b -a [param] */
+        /* combined shorts: -ab = -a [param] -b ; -ba = -b -a [param] */
 #if NPA == 1
         if (i + 1 >= n) { r->ok = 0; return; }
         r->parA[r->nA++] = TOK[t[i + 1]]; r->nB++; i += 2;
@@ -126,13 +137,24 @@ static void check(const int *t, int n)
         parsec_argv_free(tv);
     }
     PARSEC_OBJ_DESTRUCT(&cmd);
-#if NPA == 1
-    if (r.ok && r.nA == 1 && r.nB == 1 && n >= 2) VWITNESS("A with its parameter and B");
-#else
-    if (r.ok && r.nA >= 1 && r.nB >= 1 && n >= 2) VWITNESS("A and B");
+    /* vacuity witnesses: which ones are reachable depends on the enumerated first token */
+#ifdef FIX0
+#define FIRST_OPT (FIX0 == T_A || FIX0 == T_B || FIX0 == T_AB || FIX0 == T_AL || FIX0 == T_BA)
+#define FIRST_TAKES_PARAM (NPA == 1 && FIX0 != T_B && FIRST_OPT)
+#if FIRST_OPT
+    if (r.ok && n == NTOK && r.nA + r.nB >= 1) VWITNESS("accepted full-length line with a declared option");
 #endif
+#if !(FIX0 == T_DD || (FIX0 == T_X && IGN) || FIRST_TAKES_PARAM)
+    if (!r.ok && n == NTOK) VWITNESS("rejected full-length line");
+#endif
+#if FIX0 == T_DD || (FIX0 == T_X && IGN)
+    if (r.ok && n == NTOK && r.ntail >= 1) VWITNESS("accepted line with a tail");
+#endif
+#else
+    if (r.ok && n == NTOK && r.nA >= 1 && r.nB >= 1) VWITNESS("accepted full-length line with A and B");
     if (r.ok && r.ntail >= 1) VWITNESS("accepted line with a tail");
-    if (!r.ok && n >= 2) VWITNESS("rejected line");
+    if (!r.ok && n == NTOK) VWITNESS("rejected full-length line");
+#endif
 }
 
 int main(void)
@@ -149,9 +171,17 @@ int main(void)
         PARSEC_OBJ_DESTRUCT(&w);
     }
     int n = IN_RANGE(0, NTOK);
-    int c0 = IN_RANGE(0, NT - 1), c1 = IN_RANGE(0, NT - 1), c2 = IN_RANGE(0, NT - 1);
+#ifdef FIX0            /* first token enumerated by spec.py (splits the query into NT smaller ones) */
+    int c0 = FIX0;
+#else
+    int c0 = IN_RANGE(0, NT - 1);
+#endif
+    int c1 = IN_RANGE(0, NT - 1), c2 = IN_RANGE(0, NT - 1);
     for (int m = 0; m <= NTOK; m++) if (m == n) {
         for (int a = 0; a < NT; a++) if ((m < 1 && a == 0) || (m >= 1 && a == c0)) {
+#ifdef FIX0
+            if (m >= 1 && a != FIX0) continue;
+#endif
             for (int b = 0; b < NT; b++) if ((m < 2 && b == 0) || (m >= 2 && b == c1)) {
 #if NTOK >= 3
                 for (int c = 0; c < NT; c++) if ((m < 3 && c == 0) || (m >= 3 && c == c2)) {
